@@ -107,8 +107,10 @@ def handler(case):
                 obs[key] = Wrap(obs[key], nm, evlog, sim)
         if mc._default_logger is not None:
             mc._default_logger = obs["default_logger"]
+    recs = []
     for i, iv in enumerate(case["intervals"]):
-        mc.file_manager.attach_observer(f"rec{i}", Rec(10 + i, iv, evlog, sim))
+        recs.append(Rec(10 + i, iv, evlog, sim))
+        mc.file_manager.attach_observer(f"rec{i}", recs[-1])
     orig_step = mc.step
 
     def step():
@@ -117,7 +119,10 @@ def handler(case):
 
     mc.step = step
     is_mc = case["driver"] == "canonical"
-    for seg in case["segments"]:
+    retune = case.get("retune")
+    for si, seg in enumerate(case["segments"]):
+        if retune and si == retune["seg"]:
+            recs[retune["obs"]].interval = retune["interval"]      # the user re-tunes an attached observer between two run calls
         if case["entry"] == "run":
             mc.run(seg)
         elif case["entry"] == "srun":
